@@ -400,6 +400,38 @@ def with_own(rnd):
     return rnd.choice(forms) % dict(a=a, b=b, c=c, d=d)
 
 
+NESTED_FN = [
+    '[1].map(%(p)s=>%(p)s+%(a)s);', 'out([1].map((%(p)s,%(q)s)=>{let %(r)s=%(p)s;return %(r)s}));', '(function(%(p)s){let %(r)s=%(p)s;out(%(r)s)})("n");',
+    '(function fn(%(p)s){return %(p)s})(1);', '({m(%(p)s){return %(p)s}}).m(1);', '({get g(){let %(r)s=1;return %(r)s}}).g;',
+    'new(class{m(%(p)s){return %(p)s}})().m(1);', '(class{static m(%(p)s){let %(r)s=%(p)s;return %(r)s}}).m(1);', '[...(function*(%(p)s){yield %(p)s})(1)];',
+    'var fx=%(p)s=>%(p)s;fx(1);', '(()=>{})();', '(async %(p)s=>%(p)s)(1);',
+]
+LATER_SCOPE = [
+    'for(let %(c)s=0;%(c)s<2;%(c)s++){out(%(c)s)}', '{let %(c)s="b";const %(d)s="d";out(%(c)s,%(d)s)}', 'switch(1){case 1:let %(c)s="s";out(%(c)s)}',
+    'try{throw "t"}catch(%(c)s){out(%(c)s)}', 'for(const %(c)s of ["o"]){out(%(c)s)}', 'for(let %(c)s in {k:1}){out(%(c)s)}',
+    'try{let %(c)s="y";out(%(c)s)}finally{const %(d)s="f";out(%(d)s)}', 'if(out){let %(c)s="i";out(%(c)s)}else{let %(d)s="e";out(%(d)s)}',
+    'l:{let %(c)s="l";out(%(c)s);break l}', 'for(let [%(c)s,%(d)s] of [["x","y"]]){with({%(c)s:100}){out(%(c)s,%(d)s)}}',
+]
+
+
+def with_nested_then_scope(rnd, i=None):
+    """a function that contains `with`, a nested function of some kind WITHOUT `with` that is emitted first, and a later
+    block-level scope of the with-function: every own name of the with-function must stay (the rename flag is saved,
+    set and restored around every nested function).  The with body only refers to own names of its function."""
+    names = rnd.sample(FIRST + ['x', 'y', 'count', 'idx', 'tmp'], 7)
+    a, p, q, r, c, d, v = names
+    k = i if i is not None else rnd.randrange(len(NESTED_FN) * len(LATER_SCOPE))
+    nested = NESTED_FN[k % len(NESTED_FN)] % dict(a=a, p=p, q=q, r=r)
+    later = LATER_SCOPE[(k // len(NESTED_FN)) % len(LATER_SCOPE)] % dict(c=c, d=d)
+    withs = rnd.choice(['with(wo){}', 'with(wo){out(%s)}' % a, 'with({%s:100}){out(%s)}' % (c, a)])
+    parts = [withs, nested, later, 'var %s="V";out(%s);' % (v, v)]
+    if rnd.random() < 0.5:
+        parts = [nested, later, withs, 'var %s="V";out(%s);' % (v, v)]      # the with statement may also come last
+    wrap = rnd.choice(['function f(wo,%s){%s}f({},"A");', '(function(wo,%s){%s})({},"A");', '((wo,%s)=>{%s})({},"A");',
+                       'var ob={m(wo,%s){%s}};ob.m({},"A");', 'function g(){return function(wo,%s){%s}}g()({},"A");'])
+    return wrap % (a, ''.join(parts))
+
+
 def module_program(rnd):
     a, b, c, d = rnd.sample(FIRST + ['x', 'y'], 4)
     forms = [
@@ -428,6 +460,8 @@ class _Gen:
         self.maxdepth = maxdepth
         self.n = 0
         self.paren_method = 0     # >0 while generating the body of an object-literal method written inside (...)
+        self.allow_with = True
+        self.strict = 0           # >0 inside class bodies (strict mode: no with)
 
     def val(self, name):
         self.n += 1
@@ -496,6 +530,14 @@ class _Gen:
             decls.append((kw, nm))
         s.append(self.emit_decls(decls))
         tail = ''
+        with_stmt = ''
+        if is_func and self.allow_with and not self.strict and r.random() < 0.15:
+            # nothing is referenced inside the with body, so the excluded construct (with-outer) cannot arise, but the
+            # function - including every block scope and every code after nested functions - must keep its names
+            with_stmt = r.choice(['with({}){}', 'with({}){out("w")}', 'with(out){}'])
+            if r.random() < 0.5:
+                s.append(with_stmt)
+                with_stmt = ''
         if is_func and r.random() < 0.3:
             # a function declaration of the function's top level, called before its text (hoisting), and a class
             fn = r.choice(FN_POOL)
@@ -512,7 +554,7 @@ class _Gen:
                 # a var in a nested block would also collide with a let written later in this scope: none is
                 s.append(self.child(depth + 1, no_var | lex))
             s.append(self.uses(r.randint(0, 2)))
-        return ''.join(s) + tail
+        return ''.join(s) + with_stmt + tail
 
     def params(self, ps, plain=False):
         """parameter list and argument list for the parameter names ps: plain, defaulted (the default refers to
@@ -560,7 +602,11 @@ class _Gen:
             nl = dn if self.has_rest else set()
             if k == 'method':
                 self.paren_method += 1
+            if k == 'classm':
+                self.strict += 1
             body = self.func_body(depth, ps, dn, nl)
+            if k == 'classm':
+                self.strict -= 1
             if k == 'method':
                 self.paren_method -= 1
             if k == 'func':
